@@ -105,16 +105,60 @@ func c02Sections(c *core.Ctx) {
 		_ = res
 		_ = b
 		nApp := 0
+		seenSec := map[string]bool{}
 		for _, bb := range fn.Blocks {
 			for _, in := range bb.Instrs {
-				if call, ok := in.(*ssa.Call); ok && core.CalleeName(&call.Call) == "builtin:append" {
-					gs := guardsOf(call)
-					if len(gs) > 0 {
-						nApp++
+				call, ok := in.(*ssa.Call)
+				if !ok || core.CalleeName(&call.Call) != "builtin:append" {
+					continue
+				}
+				gs := guardsOf(call)
+				if len(gs) == 0 {
+					continue
+				}
+				nApp++
+				// which section test guards it (innermost guard), and with which polarity
+				sec := ""
+				for _, n := range sortedKeys(m) {
+					if m[n](core.StripVersion(gs[0].Key)) {
+						sec = n
 					}
 				}
+				if sec == "" {
+					c.Violated("checkConfigChange section test", at(c, call), "a difference is recorded under `"+gs[0].Key+"`, which is none of the reviewed section tests")
+					continue
+				}
+				seenSec[sec] = true
+				wantBranch := map[string]bool{"global": false, "tcpback": true, "tcpsvc": true, "frontend": true, "users": true, "hosts": false, "backs": false}[sec]
+				c.Check(gs[0].Branch == wantBranch, "checkConfigChange records a difference of section "+sec+" with the right polarity", at(c, call), "", "the difference is recorded on the wrong branch of the section test: a changed section does not reload and an unchanged one does")
+				if sec == "global" {
+					c.Check(guardedBy(call, m["hasOld"], true), "checkConfigChange compares globals only with a committed copy", at(c, call), "", "missing globalOld != nil guard")
+				}
+				// the result must become the new diff
+				used := false
+				for _, r := range *call.Referrers() {
+					switch x := r.(type) {
+					case *ssa.Phi:
+						used = x.Comment == "diff"
+					case *ssa.Call:
+						used = used || core.CalleeName(&x.Call) == "builtin:len" || core.CalleeName(&x.Call) == "builtin:append"
+					}
+				}
+				c.Check(used, "checkConfigChange keeps the recorded difference of section "+sec, at(c, call), "", "the result of append is discarded: the section's difference never reaches the final test")
 			}
 		}
+		for _, sec := range []string{"global", "tcpback", "tcpsvc", "frontend", "users", "hosts", "backs"} {
+			c.Check(seenSec[sec], "checkConfigChange tests section "+sec, c.Pos(fn.Pos()), "", "no recorded difference guarded by the test of this section")
+		}
+		okTrue := false
+		for _, ret := range core.Returns(fn) {
+			if core.IsConstBool(core.Results(ret)[0], true) && guardedBy(ret, has("builtin:len(", "> 0)"), false) {
+				okTrue = true
+			} else if !core.IsConstBool(core.Results(ret)[0], false) {
+				c.Violated("checkConfigChange verdict", at(c, ret), "returns `"+core.Key(core.Results(ret)[0])+"`: the verdict is not the constant decided by len(diff) > 0")
+			}
+		}
+		c.Check(okTrue, "checkConfigChange returns true only when nothing differs", c.Pos(fn.Pos()), "", "no `return true` on the false branch of len(diff) > 0")
 		c.Check(nApp >= 7, "checkConfigChange records every differing section", c.Pos(fn.Pos()), fmt.Sprintf("%d guarded appends to diff", nApp), fmt.Sprintf("only %d section tests record a difference", nApp))
 		// returns false iff len(diff) > 0
 		okRet := false
